@@ -1,6 +1,8 @@
 package ext
 
 import (
+	"math"
+	"regexp"
 	"strconv"
 
 	lang "github.com/alligator/jqawk/src"
@@ -289,7 +291,7 @@ func VHC05Compare() {
 	checkResult(cell, k, specCompare(op, ls, rs), "C05 "+kindNames[lk]+" "+op+" "+kindNames[rk])
 }
 
-var concatNums = []float64{0, 1, -3, 1.5, 0.1, 1e21, 123456789012, -0.000001, 5e-324}
+var concatNums = []float64{0, math.Copysign(0, -1), 1, -3, 1.5, 0.1, 1e21, 123456789012, -0.000001, 5e-324, 9007199254740993, -9007199254740992, 4503599627370497.5, 1e15, 123456.789}
 
 // VHC05Concat: string + number concatenates string forms (concrete numbers, the
 // string's bytes symbolic).
@@ -483,7 +485,9 @@ func VHC05Regex() {
 			vh.Assert(k == ErrRuntime, "C05 ~ with a "+kindNames[rk]+" on the right must be a runtime error")
 		}
 	case 2: // numbers are matched by their string form
-		cell, k, _ := evalExpr("$.n "+op+" $.p", map[string]any{"n": 12.5, "p": "^12\\.5$"})
+		n := concatNums[vh.Choose("n", len(concatNums))]
+		pat := "^" + regexp.QuoteMeta(strconv.FormatFloat(n, 'f', -1, 64)) + "$"
+		cell, k, _ := evalExpr("$.n "+op+" $.p", map[string]any{"n": n, "p": pat})
 		checkResult(cell, k, sres{kind: resBool, b: !neg}, "C05 number "+op+" string pattern")
 	case 3: // regex literal on the right
 		cell, k, _ := evalExpr("$.s "+op+" /^a.c$/", map[string]any{"s": "abc"})
